@@ -300,7 +300,9 @@ pub fn search<P: Prop>(p: &P, opts: &Opts) -> Outcome<P::Case> {
                                 case,
                                 violation: v,
                             });
-                            if found.len() >= 8 {
+                            // memory-safety components stop at the first finding: carrying on
+                            // after a heap overrun risks taking the whole process down
+                            if found.len() >= 8 || p.id().starts_with("C14") {
                                 stop.store(true, Ordering::Relaxed);
                             }
                         }
